@@ -26,7 +26,7 @@ class Stuck(Exception):
     pass
 
 
-def run_schedule(programs, schedule, make_env, max_steps=4000):
+def run_schedule(programs, schedule, make_env, max_steps=200000):
     """programs: list of lists of ops (c11 op format); returns (results per thread, final, steps, trace)"""
     n = len(programs)
     env = make_env()
@@ -457,15 +457,18 @@ def run_call_mode(ctx):
     cases = gen_call_cases(ctx.rng, 120 if quick else 3000)
     # expected outcome of every distinct call: executed alone (one per forked process slot; the cache of that process is private)
     distinct = {}
+
+    def key_of(it):
+        return (it[0], it[1], json.dumps(it[3], sort_keys=True), str([(np.shape(a), str(np.asarray(a).dtype), np.asarray(a).tobytes()) for a in it[2]]))
     for programs, _, _ in cases:
         for prog in programs:
             for it in prog:
-                distinct.setdefault((it[0], it[1], json.dumps(it[3], sort_keys=True), str([np.shape(a) for a in it[2]])), it)
+                distinct.setdefault(key_of(it), it)
     keys = list(distinct)
     alone = dict(zip(keys, common.pmap(alone_outcome, [distinct[k] for k in keys])))
     items = []
     for programs, points, seed in cases:
-        expected = [[alone[(it[0], it[1], json.dumps(it[3], sort_keys=True), str([np.shape(a) for a in it[2]]))] for it in prog] for prog in programs]
+        expected = [[alone[key_of(it)] for it in prog] for prog in programs]
         items.append((programs, expected, points, seed))
     res = common.pmap(_call_case, items, procs=4)
     switches = 0
